@@ -58,13 +58,29 @@ theorem queueIncoming_shape :
     ∧ count skel_QueueIncoming (· == "select{") = 2 ∧ count skel_QueueIncoming (· == "default:") = 2
     ∧ count skel_QueueIncoming (pre "call c.") = 0 := by decide +kernel
 
-/-- `QueuePacketConn.WriteTo`: closed check, copy, then a send on `c.clients.SendQueue(addr)` inside
-a select with a default arm. -/
+/-- `QueuePacketConn.WriteTo`: closed check (the only receive, inside a select with a default arm), copy,
+then `c.clients.trySend(addr, buf)` - the packet the map gets is the copy, not the caller's buffer - and
+nothing else that can block or send. -/
 theorem queueWriteTo_shape :
     before skel_queueWriteTo (· == "recv c.closed") (pre "call copy(buf, p)") = true
-    ∧ before skel_queueWriteTo (pre "call copy(buf, p)") (· == "send c.clients.SendQueue(addr)") = true
-    ∧ count skel_queueWriteTo (pre "send ") = 1 ∧ count skel_queueWriteTo (pre "recv ") = 1
-    ∧ count skel_queueWriteTo (· == "select{") = 2 ∧ count skel_queueWriteTo (· == "default:") = 2 := by
+    ∧ before skel_queueWriteTo (pre "call copy(buf, p)") (· == "call c.clients.trySend(addr, buf)") = true
+    ∧ count skel_queueWriteTo (pre "send ") = 0 ∧ count skel_queueWriteTo (pre "recv ") = 1
+    ∧ count skel_queueWriteTo (· == "select{") = 1 ∧ count skel_queueWriteTo (· == "default:") = 1
+    ∧ count skel_queueWriteTo (pre "call c.clients.") = 1 := by
+  decide +kernel
+
+/-- `ClientMap.trySend`: under the map's lock (taken first, released by defer only), one send on the queue
+`inner.SendQueue(addr, time.Now())` returns, inside a select with a default arm: the send cannot block
+and cannot overlap `removeExpired` (which closes expired queues under the same lock, `clientMap_shape`).
+Before the repair (§11.2 F18) `WriteTo` sent on the queue after `ClientMap.SendQueue` had released the
+lock. -/
+theorem trySend_shape :
+    skel_ClientMapTrySend.take 2 = ["call m.lock.Lock()", "defer m.lock.Unlock()"]
+    ∧ count skel_ClientMapTrySend (· == "call m.lock.Unlock()") = 0
+    ∧ count skel_ClientMapTrySend (pre "send ") = 1
+    ∧ skel_ClientMapTrySend.contains "send m.inner.SendQueue(addr, time.Now())" = true
+    ∧ count skel_ClientMapTrySend (· == "select{") = 1 ∧ count skel_ClientMapTrySend (· == "default:") = 1
+    ∧ count skel_ClientMapTrySend (pre "recv ") = 0 := by
   decide +kernel
 
 /-- `QueuePacketConn.ReadFrom`: a non-blocking closed check first, then a blocking select on
